@@ -11,6 +11,7 @@ RULE = (
     "all frame histories up to the depth bound over the frame alphabet x all tracker configurations (see C06), restricted to histories "
     "whose frames are internally non-overlapping; links of the returned tracks are compared with the overlap relation / the greedy "
     "closest-pair reference computed with an own (periodic) metric; non-trivial = some pair of consecutive frames are both non-empty"
+    "; grids also with a non-zero lower bound and with mixed periodicity (non-periodic in 1-D); exactly representable (dyadic, 3-4-5) lattices on which contact is decidable; time variants incl. 1e5 + 0.5 k and k*1e-9"
 )
 ASSUMPTIONS = [
     "droplet types from the declared lattices; contacts / distances within 1e-9 of a threshold are treated as ambiguous and skipped",
